@@ -65,6 +65,8 @@ type Exec struct {
 	lemmas    []*smt.Term
 	deadline  time.Time
 	procs     *smt.Term
+	errWhere  string
+	errStack  []string
 	poolHook  func(x *Exec, p Pointer) (Value, bool)
 }
 
@@ -83,20 +85,20 @@ type outcome struct {
 // ---- heap access with journaling ----
 
 func (x *Exec) write(o *Object, i int, v Value) {
-	if i < 0 || i >= len(o.Slots) {
-		efail("internal: write out of object bounds (%s idx %d size %d)", o.Name, i, len(o.Slots))
+	if i < 0 || i >= o.N {
+		efail("internal: write out of object bounds (%s idx %d size %d)", o.Name, i, o.N)
 	}
 	if x.journalOn {
-		x.e.journal = append(x.e.journal, jent{o, i, o.Slots[i]})
+		x.e.journal = append(x.e.journal, jent{o, i, o.rawGet(i)})
 	}
-	o.Slots[i] = v
+	o.rawSet(i, v)
 }
 
 func (x *Exec) read(o *Object, i int) Value {
-	if i < 0 || i >= len(o.Slots) {
-		efail("internal: read out of object bounds (%s idx %d size %d)", o.Name, i, len(o.Slots))
+	if i < 0 || i >= o.N {
+		efail("internal: read out of object bounds (%s idx %d size %d)", o.Name, i, o.N)
 	}
-	v := o.Slots[i]
+	v := o.rawGet(i)
 	if v == nil {
 		v = x.e.zeroLeaf(o.Leaf[i%len(o.Leaf)])
 	}
@@ -106,7 +108,7 @@ func (x *Exec) read(o *Object, i int) Value {
 func (x *Exec) rollback(mark int) {
 	j := x.e.journal
 	for k := len(j) - 1; k >= mark; k-- {
-		j[k].obj.Slots[j[k].idx] = j[k].old
+		j[k].obj.rawSet(j[k].idx, j[k].old)
 	}
 	x.e.journal = j[:mark]
 }
@@ -377,15 +379,28 @@ func (e *Engine) RunHarness(pkgPath, fname string, args []int64, maxWall time.Du
 			res.Err = "wall-clock budget exceeded"
 			return
 		}
-		stop := e.runPath(fn, args, dec, &pending, res, deadline)
-		if stop || res.Err != "" {
-			return
+		for {
+			npend := len(pending)
+			stop, restart := e.runPath(fn, args, dec, &pending, res, deadline)
+			if restart {
+				pending = pending[:npend]
+				res.Restarts++
+				if res.Restarts > 10000 {
+					res.Err = "too many path restarts"
+					return
+				}
+				continue
+			}
+			if stop || res.Err != "" {
+				return
+			}
+			break
 		}
 	}
 	return
 }
 
-func (e *Engine) runPath(fn *ssa.Function, args []int64, dec []Decision, pending *[][]Decision, res *Result, deadline time.Time) (stop bool) {
+func (e *Engine) runPath(fn *ssa.Function, args []int64, dec []Decision, pending *[][]Decision, res *Result, deadline time.Time) (stop, restart bool) {
 	x := &Exec{e: e, dec: dec, pending: pending, nondetN: map[string]int{}, res: res, journalOn: true, knownActive: map[string]bool{}, deadline: deadline}
 	mark := len(e.journal)
 	defer func() {
@@ -397,10 +412,12 @@ func (e *Engine) runPath(fn *ssa.Function, args []int64, dec []Decision, pending
 			case pathEnd:
 			case stopAll:
 				stop = true
+			case restartPath:
+				restart = true
 			case engineError:
-				res.Err = r.msg + " at " + x.where()
+				res.Err = r.msg + " at " + x.errWhere
 				if e.opts.Debug {
-					res.Err += "\n" + strings.Join(x.stack(), "\n")
+					res.Err += "\n" + strings.Join(x.errStack, "\n")
 				}
 			case mergeAbort:
 				res.Err = "internal: merge abort escaped: " + r.why
@@ -422,7 +439,7 @@ func (e *Engine) runPath(fn *ssa.Function, args []int64, dec []Decision, pending
 	}
 	x.callFunction(fn, vals)
 	x.runPendingGo()
-	return false
+	return false, false
 }
 
 // ---- function execution ----
@@ -449,7 +466,19 @@ func (x *Exec) callFunction(fn *ssa.Function, args []Value) []Value {
 	}
 	saved := x.cur
 	x.cur = fr
-	defer func() { x.cur = saved }()
+	defer func() {
+		if x.errWhere == "" {
+			if r := recover(); r != nil {
+				if _, ok := r.(engineError); ok {
+					x.errWhere = x.where()
+					x.errStack = x.stack()
+				}
+				x.cur = saved
+				panic(r)
+			}
+		}
+		x.cur = saved
+	}()
 	out := x.run(fr, fn.Blocks[0], nil, nil)
 	if out.kind != oRet {
 		efail("internal: function did not return")
@@ -530,13 +559,19 @@ func (x *Exec) get(fr *Frame, v ssa.Value) Value {
 		efail("internal: unknown ssa value %s", v.Name())
 	}
 	r := fr.regs[i]
-	if _, isP := r.(poison); isP {
+	if pz, isP := r.(poison); isP {
+		if pz.site != nil && !x.e.noMerge[pz.site] {
+			x.e.noMerge[pz.site] = true
+			panic(restartPath{})
+		}
 		efail("use of unmergeable register %s in %s", v.Name(), fr.fn)
 	}
 	return r
 }
 
-type poison struct{}
+type poison struct{ site ssa.Instruction }
+
+type restartPath struct{}
 
 func (x *Exec) constVal(c *ssa.Const) Value {
 	t := c.Type()
@@ -800,7 +835,7 @@ func (x *Exec) runArm(fr *Frame, b, succ *ssa.BasicBlock, cond *smt.Term, join *
 	for k := mark; k < len(j); k++ {
 		key := jkey{j[k].obj, j[k].idx}
 		if _, ok := ar.heap[key]; !ok {
-			ar.heap[key] = key.o.Slots[key.i]
+			ar.heap[key] = key.o.rawGet(key.i)
 		}
 	}
 	ar.pcAdds = append([]*smt.Term(nil), x.pc[pcMark+1:]...)
@@ -871,7 +906,7 @@ func (x *Exec) tryMerge(fr *Frame, ins *ssa.If, b *ssa.BasicBlock, c *smt.Term, 
 		vt, vf := aT.regs[i], aF.regs[i]
 		mv, ok := x.mergeVal(c, vt, vf)
 		if !ok {
-			mv = poison{}
+			mv = poison{ins}
 		}
 		fr.regs[i] = mv
 	}
@@ -884,7 +919,7 @@ func (x *Exec) tryMerge(fr *Frame, ins *ssa.If, b *ssa.BasicBlock, c *smt.Term, 
 		keys[k] = true
 	}
 	for k := range keys {
-		cur := k.o.Slots[k.i]
+		cur := k.o.rawGet(k.i)
 		vt, okT := aT.heap[k]
 		if !okT {
 			vt = cur
@@ -1081,6 +1116,7 @@ func (x *Exec) mergeVal(c *smt.Term, a, b Value) (Value, bool) {
 	}
 	return nil, false
 }
+
 
 func (x *Exec) runPendingGo() {
 	for len(x.pendingGo) > 0 {
